@@ -16,26 +16,14 @@ Definition wf_finished (l : list sev) (b : bool) : Prop :=
 Ltac wf_by mid := exists mid; split; [reflexivity | repeat constructor].
 
 (* ---- client, unary ---- *)
-Definition cu_end_flag (x : cu_exit) : bool :=
-  match x with
-  | CU_marshal r | CU_early r => match r with RErr => false | _ => true end
-  | CU_ok => true
-  | _ => false
-  end.
-
-Lemma cu_wf_finished (x : cu_exit) : wf_finished (cu_events x) (cu_end_flag x).
+(* every exit (those that return an error do return one: cu_wf): one Begin
+   first, one End last, End.Error nil iff Invoke returned nil - io.EOF included *)
+Lemma cu_wf_finished (x : cu_exit) : cu_wf x = true -> wf_finished (cu_events x) (cu_success x).
 Proof.
-  destruct x as [r|r| | | |]; try destruct r; cbn.
+  destruct x as [r|r| | | |]; try destruct r; cbn; intro H; try discriminate H.
   all: first [ wf_by (@nil sev) | wf_by [OutHeader; OutPayload] | wf_by [OutHeader; OutPayload; InHeader]
              | wf_by [OutHeader; OutPayload; InHeader; InPayload] ].
 Qed.
-
-Definition cu_eof (x : cu_exit) : bool :=
-  match x with CU_marshal REof | CU_early REof => true | _ => false end.
-
-Lemma cu_end_iff_success (x : cu_exit) :
-  cu_wf x = true -> cu_eof x = false -> cu_end_flag x = cu_success x.
-Proof. destruct x as [r|r| | | |]; try destruct r; cbn; intros; congruence. Qed.
 
 (* ---- client, stream ---- *)
 Lemma cs_run_ended (h : bool) (ops : list cs_op) :
@@ -190,10 +178,6 @@ Proof.
     repeat split; [constructor; [reflexivity|assumption]|assumption].
   - exists (OutHeader :: fst (cs_run (mkCs false false) ops)). split; [reflexivity|]. constructor; [reflexivity|assumption].
 Qed.
-
-(* without a CloseSend after the end, the End is the last event *)
-Definition no_late_close (ops : list cs_op) : Prop :=
-  forall pre post, ops = pre ++ CCloseSend :: post -> cs_outcome false pre = None.
 
 Lemma cs_failed_open (op : cs_open) (ops : list cs_op) :
   op <> CSO_ok -> wf_finished (cs_events op ops) false.
